@@ -694,5 +694,5 @@ func (h *harness) dump() string {
 		stakes = append(stakes, name+"="+strconv.FormatUint(st, 10))
 	}
 	sort.Strings(stakes)
-	return "A[" + strings.Join(accts, ";") + "] B[" + strings.Join(bals, ";") + "] L[" + h.logsStr(logs) + "] M[" + strings.Join(stakes, ";") + "] T[" + strings.Join(trans, ";") + "] X[" + strings.Join(acc, ";") + "]"
+	return "A[" + strings.Join(accts, ";") + "] B[" + strings.Join(bals, ";") + "] L[" + h.logsStr(logs) + "] M[" + strings.Join(stakes, ";") + "] T[" + strings.Join(trans, ";") + "] X[" + strings.Join(acc, ";") + "] F=" + strconv.FormatUint(adb.GetRefund(), 10)
 }
